@@ -94,6 +94,7 @@ class Interp:
             [it.ew(lambda a, b: it.dom.sqrt(it.dom.mul(a, a) + it.dom.mul(b, b)), *iv)]
             if (any(is_sym(x) for x in iv) or it.dom.exact_concrete) else it.eval_closed(e.params["jaxpr"], iv))
 
+        self.named_arity = {"hypot": (2, 1), "solve": (2, 1)}
         self.named_calls["lstsq"] = self._lstsq_call
         self.named_calls["_lstsq"] = self._lstsq_call
 
@@ -471,7 +472,18 @@ class Interp:
             return self.handlers[name](self, e, invals)
         if name in CALLS:
             nm = p.get("name")
-            if nm in self.named_calls:
+            if nm == "hypot" and len(invals) == 4 and len(e.outvars) == 2 and (
+                    any(is_sym(x) for x in invals) or self.dom.exact_concrete):
+                # forward-mode variant of jnp.hypot: operands (x, y, dx, dy) -> (r, dr), r = sqrt(x^2+y^2), dr = (x dx + y dy)/r
+                # (operand order is checked by the translator validation against the real runtime)
+                d_ = self.dom
+                r = self.ew(lambda a, b: d_.sqrt(d_.mul(a, a) + d_.mul(b, b)), invals[0], invals[1])
+                dr = self.ew(lambda a, b, da, db, rr: d_.div(d_.mul(a, da) + d_.mul(b, db), rr), invals[0], invals[1],
+                             invals[2], invals[3], r)
+                return [r, dr]
+            if nm in self.named_calls and len(e.outvars) == self.named_arity.get(nm, (None, len(e.outvars)))[1] \
+                    and len(invals) == self.named_arity.get(nm, (len(invals), None))[0]:
+                # (differentiated / batched variants keep the jit name but have more operands: interpret their body)
                 return self.named_calls[nm](self, e, invals)
             cj = p.get("jaxpr") or p.get("call_jaxpr")
             return self.eval_closed(cj, invals)
@@ -492,7 +504,11 @@ class Interp:
             if p.get("pivoting"):
                 raise Unsupported("pivoted qr")
             R = self.batched(lambda M: dom.qr_r(M), [invals[0]], [2])
-            return [None, R]
+            Q = None
+            if getattr(dom, "want_q", False):
+                # the orthogonal factor is only needed by hand-written differentiation rules (C16)
+                Q = self.batched(lambda M: dom.qr_q(M), [invals[0]], [2])
+            return [Q, R]
         if not anysym:
             floaty = any(isinstance(a, np.ndarray) and np.issubdtype(a.dtype, np.floating) for a in invals)
             if not (name in EXACT and floaty and dom.exact_concrete):
